@@ -2209,6 +2209,11 @@ class SessionTicketPayload(object):
                encrypt_then_mac=False, extended_master_secret=False,
                server_name=bytearray()):
         """Initialise the object with cryptographic data."""
+        self.version = 0
+        self._cert_chain = None
+        self.encrypt_then_mac = False
+        self.extended_master_secret = False
+        self.server_name = bytearray()
         self.master_secret = master_secret
         self.protocol_version = protocol_version
         self.cipher_suite = cipher_suite
